@@ -235,8 +235,10 @@ def gen_c10(rng: random.Random, tier: str) -> Plan:
             ops.append(d)
     n_ops = rng.randint(6, 14) if tier == "quick" else rng.randint(8, 30)
     bases = list(base_recipes)
+    evid_names: set[str] = set()
     for _ in range(n_ops):
         r = rng.random()
+        evid_names = {o["name"] for o in ops if o["op"] == "derive" and o["spec"]["opr"] == "evidence"}
         derived = [n for n in m.names if n.startswith("d")]
         if r < 0.25:
             b = rng.choice(bases)
@@ -258,12 +260,19 @@ def gen_c10(rng: random.Random, tier: str) -> Plan:
         elif r < 0.76:
             ops.append({"op": "load", "target": rng.choice(m.names), "slot": f"s{rng.randrange(3)}",
                         "assign": rng.random() < 0.2})
-        elif r < 0.79:
-            if rng.random() < 0.5:
+        elif r < 0.80:
+            if rng.random() < 0.4:
                 ops.append({"op": "foreign_compile", "target": rng.choice(m.names), "seed": _seed(rng),
                             "flags": {"fold": rng.random() < 0.5, "optimize": rng.random() < 0.5}})
             else:
-                ops.append({"op": "load_edited", "target": rng.choice(m.names), "seed": _seed(rng),
+                # prefer circuits that hold constants others may read: evidence circuits (their
+                # observation) with something derived from them, hand-assembled bases
+                holders = [n for n in m.names if n in evid_names and any(
+                    n in (o.get("spec", {}).get("src") or []) for o in ops if o["op"] == "derive")]
+                if hand:
+                    holders.append("b0")
+                tgt = rng.choice(holders) if holders and rng.random() < 0.8 else rng.choice(m.names)
+                ops.append({"op": "load_edited", "target": tgt, "seed": _seed(rng),
                             "mode": rng.choice(["mul", "add"]), "scale": rng.choice([0.3, 1.0])})
         elif r < 0.88 and m.nd < 6:
             d = _gen_derive(rng, m, domain=domain, poly=poly, allow_fault=faults)
